@@ -196,7 +196,7 @@ def plan(tier, seed):
     specs.append({"name": "files", "mode": "files", "maxchars": 60000 if tier == "quick" else 300000})
     lex = sorted(LEX_FAMILIES)
     for i in range(4):
-        specs.append({"name": f"lex-{i}", "mode": "lex", "families": lex[i::4], "timeout_s": 150})
+        specs.append({"name": f"lex-{i}", "mode": "lex", "families": lex[i::4], "timeout_s": 400})
     return specs
 
 
